@@ -148,7 +148,7 @@ func (o *ObjectSchema) Unserialize(data any) (result any, err error) {
 	v := reflect.ValueOf(data)
 	var rawData map[string]any
 	if v.Kind() != reflect.Map {
-		if len(o.Properties()) == 1 {
+		if len(o.Properties()) == 1 && o.inlineShorthandTerminates() {
 			rawData, err = o.unserializeInlinedDataToMap(data)
 		} else {
 			return nil, &ConstraintError{
@@ -169,6 +169,36 @@ func (o *ObjectSchema) Unserialize(data any) (result any, err error) {
 		return o.unserializeToStruct(rawData)
 	}
 	return rawData, nil
+}
+
+// inlineShorthandTerminates reports whether handing a non-map value down the chain of single-property
+// objects starting at o ends at a property that is not itself a single-property object of the chain. A
+// single-property object referring (directly or through other single-property objects) to itself would
+// otherwise pass the value to itself forever.
+func (o *ObjectSchema) inlineShorthandTerminates() bool {
+	seen := map[*ObjectSchema]bool{}
+	current := o
+	for current != nil && len(current.PropertiesValue) == 1 {
+		if seen[current] {
+			return false
+		}
+		seen[current] = true
+		var next *ObjectSchema
+		for _, property := range current.PropertiesValue {
+			switch t := property.Type().(type) {
+			case *ObjectSchema:
+				next = t
+			case *RefSchema:
+				if t.ObjectReady() {
+					next, _ = t.GetObject().(*ObjectSchema)
+				}
+			case *ScopeSchema:
+				next = t.RootObject()
+			}
+		}
+		current = next
+	}
+	return true
 }
 
 func (o *ObjectSchema) unserializeInlinedDataToMap(data any) (map[string]any, error) {
